@@ -40,6 +40,18 @@ Definition mwem_events (rho alpha : T) (rounds : nat) (bounded fwd : bool) : lis
   let sf := if bounded then (if fwd then L 1 1 else L 2 1) else L 1 1 in
   flat_map (fun _ => [Select eps sf; Gauss (ms * sigma) ms]) (seq 0 rounds).
 
+(* MWEM+PGM, Laplace mode (pure DP): per round eps/T split alpha : 1-alpha; Laplace scale = ms/(alpha eps/T) with ms the L1 change of a
+   marginal (2 if bounded else 1); selection with parameter (1-alpha) eps/T.  Pure-DP charging rule: a Laplace release of L1 change D at
+   scale b costs D/b; a selection run with parameter eps on scores moving sf times the sensitivity it was given costs eps*sf. *)
+Inductive pevent := Lap (scale sens : T) | PSelect (eps sf : T).
+Definition pcost (e : pevent) : T := match e with Lap b d => d / b | PSelect e f => e * f end.
+Definition ptotal (l : list pevent) : T := fold_right (fun e acc => pcost e + acc) (L 0 1) l.
+Definition mwem_lap_events (eps alpha : T) (rounds : nat) (bounded : bool) : list pevent :=
+  let epr := eps / of_nat rounds in
+  let sigma := L 1 1 / (alpha * epr) in
+  let ms := if bounded then L 2 1 else L 1 1 in
+  flat_map (fun _ => [PSelect ((L 1 1 - alpha) * epr) (L 1 1); Lap (ms * sigma) ms]) (seq 0 rounds).
+
 (* Adaptive grid: n1 releases in step 1 (scale sqrt(.5/rho1)*sqrt n1), r-1 selections with eps = sqrt(8 rho2/(r-1)), n3 releases in step 3 *)
 Definition adagrid_events (rho1 rho2 rho3 : T) (n1 rm1 n3 : nat) : list event :=
   repeat_ev n1 (Gauss (nsqrt Ops (L 1 2 / rho1) * nsqrt Ops (of_nat n1)) (L 1 1)) ++
